@@ -22,6 +22,7 @@ RULE = ("stream 'history': random sequences (4..14 steps) of store API operation
         "crash(run(prefix j)). stream 'journal': the journal mode of the opened store's connection. stream 'otherkey': an operation on one key (second device, second sender, "
         "neighbouring id, other contact) never costs the record under another key. distinct = distinct (history, op, kill point).")
 RULE += (" stream 'stmtfault': the j-th write statement of an operation fails (storage fault), then another operation, close: file vs model, the record stored before must still be there. stream 'localid': the account's own identity with edge bytes (0x05 / 0x00 / 0xff leading, trailing) read back before and after a reopen.")
+RULE += (" stream 'factory': the store opened through AxolotlManagerFactory (two profiles of one account, two accounts, the same profile twice): a write through a manager lands in that profile's own file.")
 ASSUMPTIONS = ["SQLite's atomic commit: a transaction that was not committed when the process died is rolled back on reopen; a committed one is durable "
                "(power loss / fsync lies below SQLite are not exhibited)", "python-axolotl record (de)serialisation is the identity on the stored blobs"]
 EXHAUSTIVE = {"quick": False, "thorough": False}
@@ -73,6 +74,11 @@ def cases(chk):
             for then in (4, 0, 9):
                 if not chk.quick() or then == 4 or op in (0, 3):
                     yield "stmtfault", {"op": op, "k": k, "then": then}
+    # the way the library itself opens the store (AxolotlManagerFactory.get_manager(profile, account)): every profile has its own file, whatever
+    # else the process has open — two profiles of one account, two accounts, the same profile twice
+    for shape in ("same-account-two-profiles", "two-accounts", "same-profile-twice", "same-account-two-profiles-reversed"):
+        for op in (0, 3, 4, 9):
+            yield "factory", {"shape": shape, "op": op}
     # corpus: replace of an existing session / identity killed at every point
     for op in (0, 3, 9):
         for j in range(0, 8):
@@ -433,9 +439,65 @@ def run_stmtfault(chk, case):
     return []
 
 
+def run_factory(chk, case):
+    import os
+    import sqlite3
+    import uuid
+    from yowsup.axolotl.factory import AxolotlManagerFactory
+    from yowsup.common.tools import StorageTools
+    tag = uuid.uuid4().hex[:8]
+    shape, op = case["shape"], case["op"]
+    pa, pb = "c13fa-" + tag, ("c13fa-" if shape == "same-profile-twice" else "c13fb-") + tag
+    n = int(tag, 16) % 10 ** 7
+    ua = "49151%07d" % n
+    ub = ("49152%07d" % n) if shape == "two-accounts" else ua
+    chk.hit("factory:" + shape)
+    fac = AxolotlManagerFactory()
+    first = [(pa, ua), (pb, ub)][::-1 if shape.endswith("reversed") else 1]
+    m1 = fac.get_manager(*first[0])
+    m2 = AxolotlManagerFactory().get_manager(*first[1])
+    key = KEYS[TABLE_OF[op]][0]
+    axo.apply_op(m2._store, chk.pool, op, key, 1, key)
+    path1, path2 = StorageTools.constructPath(first[0][0], "axolotl.db"), StorageTools.constructPath(first[1][0], "axolotl.db")
+    out = []
+
+    def dump_or_none(path):
+        try:
+            return axo.dump(path, chk.pool) if os.path.exists(path) else (None, None)
+        except sqlite3.Error:
+            return None, None          # not a key store (no tables)
+    try:
+        d2, l2 = dump_or_none(path2)
+        if d2 is None or not [r for r in d2[TABLE_OF[op]] if r[0] == key and r[1] == 1]:
+            out.append(oracle("C13:written-to-another-profile", "%s (%s, then %s opened through the manager factory in one process): %s through the second manager — the record is not in "
+                              "that profile's own database file%s: a restart that opens this profile does not find it"
+                              % (shape, first[0], first[1], axo.OPS[op][0], " (the file does not even exist)" if d2 is None else "")))
+        elif path1 != path2:
+            d1, l1 = dump_or_none(path1)
+            if d1 is None:
+                out.append(oracle("C13:written-to-another-profile", "%s: the first profile opened through the factory has no key store file of its own" % shape))
+            elif [r for r in d1[TABLE_OF[op]] if r[0] == key]:
+                out.append(oracle("C13:written-to-another-profile", "%s: %s through the second manager also appears in the FIRST profile's file" % (shape, axo.OPS[op][0])))
+            elif l1 == l2:
+                out.append(oracle("C13:profiles-share-identity", "%s: both profiles' files hold the same own identity and registration id" % shape))
+        if not out and d2 is not None:
+            own = l2[0] if l2 else None
+            if own is None or int(own[0]) != int(m2.registration_id) or bytes(own[1]) != bytes(m2.identity.getPublicKey().serialize()):
+                out.append(oracle("C13:manager-identity-not-the-profiles", "%s: the second manager presents an identity / registration id that is not the one in its profile's file" % shape))
+    finally:
+        for m in (m1, m2):
+            try:
+                close_store(m._store)
+            except Exception:
+                pass
+    return out
+
+
 def run_case(chk, stream, case):
     if stream == "otherkey":
         return run_otherkey(chk, case)
+    if stream == "factory":
+        return run_factory(chk, case)
     if stream == "stmtfault":
         return run_stmtfault(chk, case)
     if stream == "localid":
@@ -608,7 +670,7 @@ def _child(path, pool, op, j, mode="kill"):
 
 
 def shrink(stream, case):
-    if stream in ("journal", "otherkey", "localid", "stmtfault"):
+    if stream in ("journal", "otherkey", "localid", "stmtfault", "factory"):
         return
     if stream == "crash":
         pre = case["pre"]
